@@ -15,7 +15,7 @@ import random
 from harness import absval, core, repo
 from harness.repo import Cell, Context, CellTranslator
 
-TITLES3 = ['Data', 'My Sheet', "It's 2"]
+TITLES3 = ['Data', 'My  Sheet', "It's 2"]
 FCOL = 100          # formulas of the far workbook live in this column (no grid column is near it)
 FROW = 200
 
@@ -269,7 +269,7 @@ def gen(run):
 
 
 def unknown_titles(run):
-    cases = ['=Nope!A1', "='No Such'!A1", '=SUM(Nope!A1:B2)', "=INDEX('My Sheets'!A1:B2,1,1)", '=data!A1', "='Data '!A1", '=Nope!A:A', '=Dat!B2+Data!A1', '=!A1', "=''!A1", '=SUM(!A1:B2)', '=COLUMN(Nope!C1)', "=COLUMN('No Such'!C1:D2)+1"]
+    cases = ['=Nope!A1', "='No Such'!A1", '=SUM(Nope!A1:B2)', "=INDEX('My Sheets'!A1:B2,1,1)", '=data!A1', "='Data '!A1", '=Nope!A:A', '=Dat!B2+Data!A1', '=!A1', "=''!A1", '=SUM(!A1:B2)', '=COLUMN(Nope!C1)', "=COLUMN('No Such'!C1:D2)+1", "='My Sheet'!A1", "='My   Sheet'!A1"]      # the workbook's sheet has TWO blanks in its title
     cellmaps = [{(0, 0): 11, (1, 1): 12}, {(0, 0): 21}, {(0, 0): 31}]
     for f in cases:
         klass, terr, lerr = build(TITLES3, cellmaps, [(0, 5, 0, f)])
@@ -281,7 +281,7 @@ def unknown_titles(run):
 
 
 # ---------------------------------------------------------------- direction B
-POOL = [('Data', False), ('S1', False), ('Лист1', False), ('My Sheet', True), ('a-b.c', True), ("O'Brien", True), ('2024', True), ('Q&A (x)', True), ('sheet_2', False)]
+POOL = [('Data', False), ('S1', False), ('Лист1', False), ('My  Sheet', True), ('a-b.c', True), ("O'Brien", True), ('2024', True), ('Q&A (x)', True), ('sheet_2', False)]
 
 
 def rand_ref(rng, titles):
@@ -449,8 +449,8 @@ def public_path(run):
             for c in range(1, 5):
                 maps[s - 1][(c - 1, r - 1)] = encode(s, c, r) % 1_000_000 + s * 1_000_000     # openpyxl keeps ints < 2^53; keep them small anyway
     val = lambda s, c, r: encode(s, c, r) % 1_000_000 + s * 1_000_000   # noqa
-    forms = [("=B2", 1, val(1, 2, 2)), ("=$C$3", 1, val(1, 3, 3)), ("='My Sheet'!B2", 1, val(2, 2, 2)), ("=Data!C1", 2, val(1, 3, 1)), ("='It''s 2'!$A4", 1, val(3, 1, 4)),
-             ("=INDEX('My Sheet'!A1:C2,2,3)", 3, val(2, 3, 2)), ("=INDEX(A:B,3,2)", 2, val(2, 2, 3)), ("=SUM('It''s 2'!A1:A2)", 1, val(3, 1, 1) + val(3, 1, 2)),
+    forms = [("=B2", 1, val(1, 2, 2)), ("=$C$3", 1, val(1, 3, 3)), ("='My  Sheet'!B2", 1, val(2, 2, 2)), ("=Data!C1", 2, val(1, 3, 1)), ("='It''s 2'!$A4", 1, val(3, 1, 4)),
+             ("=INDEX('My  Sheet'!A1:C2,2,3)", 3, val(2, 3, 2)), ("=INDEX(A:B,3,2)", 2, val(2, 2, 3)), ("=SUM('It''s 2'!A1:A2)", 1, val(3, 1, 1) + val(3, 1, 2)),
              ("=INDEX('Data'!A:C,2,3)", 3, val(1, 3, 2))]
     for k, (f, own, _) in enumerate(forms):
         maps[own - 1][(6, k)] = f
